@@ -78,9 +78,22 @@ def indented():
              (['     w', '    x'], ' w\nx\n'), (['    <a> &amp; *b*'], '<a> &amp; *b*\n'), (['    - w'], '- w\n'), (['    # w', '    > x'], '# w\n> x\n')]
     for lines, content in cases:
         yield ('indented', lines, '<pre><code>%s</code></pre>\n' % esc(content), dict(lines=lines), False)
+    # lines of white space only are blank lines: before the first chunk they are not part of the block (label 'lead' = number of such
+    # lines, the block starts after them), between chunks they keep what exceeds four columns, after the last chunk they are dropped
+    for lines, content, lead in [(['      ', '    w'], 'w\n', 1), (['    ', '    w'], 'w\n', 1), (['     ', '', '    w'], 'w\n', 2), (['       ', '      ', '     w'], ' w\n', 2),
+                                 (['    w', '      ', '    x'], 'w\n  \nx\n', 0), (['    w', '    ', '    x'], 'w\n\nx\n', 0), (['    w', '  ', '    x'], 'w\n\nx\n', 0),
+                                 (['    w', '      '], 'w\n', 0), (['    w', '', '     ', '  '], 'w\n', 0), (['    w', '     ', '      x', '    '], 'w\n \n  x\n', 0)]:
+        yield ('indented', lines, '<pre><code>%s</code></pre>\n' % esc(content), dict(lines=lines, lead=lead), False)
+    for lines in (['      '], ['    ', '     '], ['    ', '', '      ']):
+        yield ('indented-blank', lines, '', dict(lines=lines), False)
     tabs = [(['\t<div>'], '<div>\n'), (['  \t<!-- c -->'], '<!-- c -->\n'), ([' \t<pre>', '\tx'], '<pre>\nx\n'), (['\tw'], 'w\n'), (['  \tw'], 'w\n'), (['    \tw'], '\tw\n'), (['\t\tw'], '\tw\n'), (['\tw', '    x'], 'w\nx\n'), (['   \tw\tx'], 'w\tx\n')]
     for lines, content in tabs:
         yield ('indented-tab', lines, '<pre><code>%s</code></pre>\n' % esc(content), dict(lines=lines), False)
+    for lines, content, lead in [(['\t', '\tw'], 'w\n', 1), (['\t\t', '    w'], 'w\n', 1), (['  \t ', '', '\tw'], 'w\n', 2), (['\tw', '\t\t', '\tx'], 'w\n\t\nx\n', 0), (['\tw', ' \t ', '\tx'], 'w\n \nx\n', 0),
+                                 (['\tw', '\t\t\t\t\t', '\tx'], 'w\n\t\t\t\t\nx\n', 0), (['\tw', '\t\t'], 'w\n', 0)]:
+        yield ('indented-tab', lines, '<pre><code>%s</code></pre>\n' % esc(content), dict(lines=lines, lead=lead), False)
+    for lines in (['\t'], ['\t\t'], ['  \t  ']):
+        yield ('indented-blank', lines, '', dict(lines=lines), False)
 
 
 # ------------------------------------------------------------------------------------------- HTML blocks (4.6)
@@ -313,6 +326,8 @@ def in_context(case, ctx):
         return '\n'.join(lines + ['after']) + '\n', html + '<p>after</p>\n', 0
     if ctx == 'after-paragraph':
         return '\n'.join(['before', ''] + lines) + '\n', '<p>before</p>\n' + html, 2
+    if fam == 'indented-blank' and ctx == 'in-list-item':
+        return None         # the item would hold one paragraph only and stay tight: another template
     if ctx == 'in-quote':
         if fam == 'setext' or has_tab or fam == 'indented-tab':
             return None
@@ -327,6 +342,20 @@ def in_context(case, ctx):
         body = [('  ' + l) if l else '' for l in lines]
         return '\n'.join(['- b', ''] + body) + '\n', '<ul>\n<li>\n<p>b</p>\n%s</li>\n</ul>\n' % html, 2
     raise KeyError(ctx)
+
+
+def blank_lines_emptied(case):
+    """the same indented-code case with every white-space-only line written as an empty line (and the expected content to match)"""
+    fam, lines, html, label, se = case
+    new = [l if l.strip(' \t') else '' for l in lines]
+    body = []
+    for l in new:
+        body.append(l[4:] if l else '')
+    while body and body[-1] == '':
+        body.pop()
+    while body and body[0] == '':
+        body.pop(0)
+    return (fam, new, '<pre><code>%s</code></pre>\n' % esc('\n'.join(body) + '\n'), dict(label, lines=new), se)
 
 
 def all_cases(fam):
